@@ -7,7 +7,7 @@ THEOREMS = {
         "Dawgs.C03.Props.wellScoped_sound", "Dawgs.C03.Props.wellScoped_no_error", "Dawgs.C03.Props.wellScoped_no_unbound",
         "Dawgs.C03.Props.applyShape_match", "Dawgs.C03.Props.cte_columns_match",
         "Dawgs.C03.Props.params_closed", "Dawgs.C03.Props.missing_param_rejected", "Dawgs.C03.Props.c03_partial",
-        "Dawgs.C03.Props.c03_partial_S2", "Dawgs.C03.Props.tr_wellScoped",
+        "Dawgs.C03.Props.c03_partial_S2", "Dawgs.C03.Props.tr_wellScoped", "Dawgs.C03.Props.c03_partial_S3", "Dawgs.C03.Props.c03_partial_S4",
     ],
 }
 
@@ -153,7 +153,13 @@ def classify(verdict, sql, op=""):
         return ss + ":unrecognised-query-shape"
     feats = cyshape.features(q)
     for shape, need in SHAPES.get(ss, []):
-        if need <= feats:
+        # the registered pattern-predicate classes are about a predicate that reads a binding of an EARLIER clause; a MATCH that binds a
+        # path and holds a pattern predicate over its OWN bindings is a shape of its own (the path binding depends on the frame that the
+        # predicate's snapshot scope replaces) — it is deliberately not registered, so any non-ok outcome on it is a VIOLATION
+        # (single-MATCH queries without WITH / UNWIND only: with further clauses the unchanged translator already fails in ways that fall
+        # under the registered classes — path variable carried through WITH, predicate reading an earlier binding)
+        if need <= feats and not ("pattern-predicate" in need and "named-path-with-own-pattern-predicate" in feats and
+                                  not (feats & {"with", "unwind", "match-after-earlier-clause"})):
             return ss + ":" + shape
     return ss + ":unrecognised-query-shape"
 
@@ -217,7 +223,7 @@ SPEC = {
     "regen": do_regen,
     "lean_modules": ["Dawgs.Props.C03"],
     "theorems_by_module": THEOREMS,
-    "gate_modules": ["Dawgs.Model.Sql", "Dawgs.Model.C01", "Dawgs.Model.C01S2", "Dawgs.Model.C03", "Dawgs.Model.C03Bind", "Dawgs.Model.SqlSchema", "Dawgs.Proofs.C03", "Dawgs.Proofs.C03Frag", "Dawgs.Props.C03"],
+    "gate_modules": ["Dawgs.Model.Sql", "Dawgs.Model.C01", "Dawgs.Model.C01S2", "Dawgs.Model.C01Chain", "Dawgs.Model.C01Count", "Dawgs.Model.C03", "Dawgs.Model.C03Bind", "Dawgs.Model.SqlSchema", "Dawgs.Proofs.C03", "Dawgs.Proofs.C03Frag", "Dawgs.Props.C03"],
     "suites": [{"name": "c03", "model_suite": "c03", "model_input": model_input, "impl_view": impl_view, "model_view": model_view,
                 "judge": judge, "keep_prefix": 1, "thorough_seeds": 1}],
     "nontrivial": nontrivial,
@@ -230,9 +236,12 @@ SPEC = {
             "translator and the verified binder runs on the reflection S-expression of Result.Statement with Result.Parameters' keys and the source's updating flag; "
             "plus FOCUSED FAMILIES (harness/focused.go): minimal queries built systematically, one scoping shape each — a binding read only from the inline property map / WHERE / "
             "pattern predicate / endpoint of a later MATCH; renamings inside one WITH (fresh, identity, shadowing, swaps, rotations); variable-length step + fixed hops with every subset of "
-            "the suffix nodes already bound; aggregate-only projections with LIMIT. FINDING KEY = C03:<symptom>:<sql site>:<query shape>: symptom from the binder verdict, sql site from the "
+            "the suffix nodes already bound; aggregate-only projections with LIMIT; a NAMED PATH bound by a MATCH whose own WHERE holds a pattern predicate (incl. the patterns the "
+            "optimiser reverses), the path / nodes(p) / relationships(p) / length(p) projected afterwards, also through WITH. FINDING KEY = C03:<symptom>:<sql site>:<query shape>: symptom from the binder verdict, sql site from the "
             "position of the dangling reference in the SQL text, query shape = the first ENABLING feature set (lib/cyshape.py, table SHAPES in lib/props/c03.py) the Cypher text satisfies for "
-            "that symptom:site; a query that shows the symptom at that site without any registered enabling shape is keyed `unrecognised-query-shape`, which is never registered: VIOLATION. "
+            "that symptom:site; a query that shows the symptom at that site without any registered enabling shape is keyed `unrecognised-query-shape`, which is never registered: VIOLATION. The registered pattern-predicate shapes are about a predicate reading a binding of an EARLIER clause: a "
+            "single-MATCH query (no WITH / UNWIND / earlier clause) that binds a path variable and holds a pattern predicate over its own bindings (feature "
+            "`named-path-with-own-pattern-predicate`) is excluded from them, so a non-ok verdict there is `unrecognised-query-shape`. "
             "non-trivial = the statement has >= 2 CTE frames; distinct = distinct op lines",
     "expected_branches": ["translated", "source_updating", "gen.feat.with", "gen.feat.optional-match", "gen.feat.pattern-predicate", "gen.feat.quantifier",
                           "gen.feat.expansion", "gen.feat.path-binding", "gen.feat.multi-match", "gen.feat.unwind", "builder.v1-node", "builder.v2-rel"],
@@ -258,6 +267,8 @@ MANIFEST = {
             "c03_partial : C03_for C01.tr — PROVED for the model translator of C01 (stage S1, all queries, all kind maps): its statements pass the binder, hence resolve, under the schema with "
             "no parameters. c03_partial_S2 : forall flipOf, C03_for (C01.tr2F flipOf) and tr_wellScoped — the same for S1 plus stage S2b (MATCH (a)-[r]->(b) [WHERE single-variable conjuncts] RETURN items "
             "over a, r, b; both join orders, every combination of kind constraints, every list of conjuncts: Proofs/C03Frag.lean bPredAt — a lowered S1 predicate binds wherever its alias "
-            "shows id / properties / kind column): the statement passes the binder (wellScoped = true) under the schema with the empty parameter list. C03_full (the same for a total translator) is a visible, undischarged Prop.",
+            "shows id / properties / kind column); c03_partial_S3 : forall flipOf flipCh, C03_for (C01.tr3F flipOf flipCh) adds stage S2c, chains of two or three hops (frames s0, s1[, s2] "
+            "with the carried columns and the `!=` guards, final projection over the last frame: ChainB.tr_wellScopedCh); c03_partial_S4 : forall flipOf flipCh fast, C03_for (C01.tr4F flipOf flipCh fast) adds stage S1c, the two "
+            "count statements (fast path / node frame, with or without alias: CountB.tr_wellScopedCount): the statement passes the binder (wellScoped = true) under the schema with the empty parameter list. C03_full (the same for a total translator) is a visible, undischarged Prop.",
     "note": "Not a proof about the Go translator: per-output validation. PostgreSQL's scoping rules are a trusted Lean transcription of the documentation (no server in the sandbox).",
 }
